@@ -220,8 +220,11 @@ def drv_bs(ctx, k, rng):
             def one(hh):
                 p0, p1, p2, p3 = p_tie(S0), p_tie(S0 - hh), p_tie(S0 - 2 * hh), p_tie(S0 - 3 * hh)
                 return (3 * p0 - 4 * p1 + p2) / (2 * hh) if order == 1 else (2 * p0 - 5 * p1 + 4 * p2 - p3) / (hh * hh)
-            a_, b_ = one(h_), one(h_ / 2)
-            return (4 * b_ - a_) / 3, (b_ - a_).abs()
+            # three step sizes: two successive extrapolations of the h^2 term; the second is the estimate, their difference (which carries the
+            # h^3 term one-sided formulas have) its uncertainty
+            a_, b_, c_ = one(h_), one(h_ / 2), one(h_ / 4)
+            e1_, e2_ = (4 * b_ - a_) / 3, (4 * c_ - b_) / 3
+            return e2_, (e2_ - e1_).abs()
 
         K_h = float(torch.as_tensor(K))
         with torch.no_grad():
